@@ -369,12 +369,12 @@ func (d *Doc) Render(w *World) ([]byte, error) {
 
 // FetchRec is one Fetch seen by the source.
 type FetchRec struct {
-	Op                 string
-	Seq                int  // which state of the source was served (index into States)
-	Step, EndStep      int  // call / delivery
-	T, EndT            time.Duration
-	Delivered          bool // body or error handed to vouch (not cancelled)
-	Cancelled          bool
+	Op            string
+	Seq           int // which state of the source was served (index into States)
+	Step, EndStep int // call / delivery
+	T, EndT       time.Duration
+	Delivered     bool // body or error handed to vouch (not cancelled)
+	Cancelled     bool
 }
 
 // Source serves the current state; the harness changes it with Set.
@@ -443,4 +443,48 @@ func (s *Source) Fetch(ctx context.Context, url string) ([]byte, error) {
 		return nil, ferr
 	}
 	return append([]byte{}, body...), nil
+}
+
+// InForce lists the documents that can be the configuration in force at some
+// moment of the simulated interval [tc, tr], by the last-good-configuration
+// rule: a usable document takes effect at the instant it is delivered (events
+// of the same instant are unordered), anything else leaves the previous one in
+// force.  A nil element stands for "no document yet": the fallback values.
+func (s *Source) InForce(tc, tr time.Duration) []*Doc {
+	type del struct {
+		d    *Doc
+		t    time.Duration
+		step int
+	}
+	var ds []del
+	simrt.Crit(func() {
+		for _, f := range s.Fetches {
+			if f.Delivered && f.Seq >= 0 && s.States[f.Seq].Good() {
+				ds = append(ds, del{s.States[f.Seq], f.EndT, f.EndStep})
+			}
+		}
+	})
+	for i := 1; i < len(ds); i++ { // insertion sort by delivery order
+		for j := i; j > 0 && ds[j].step < ds[j-1].step; j-- {
+			ds[j], ds[j-1] = ds[j-1], ds[j]
+		}
+	}
+	var out []*Doc
+	superseded := func(i int) bool { // a later delivery strictly before tc
+		for j := i + 1; j < len(ds); j++ {
+			if ds[j].t < tc {
+				return true
+			}
+		}
+		return false
+	}
+	if !superseded(-1) {
+		out = append(out, nil)
+	}
+	for i, d := range ds {
+		if d.t <= tr && !superseded(i) {
+			out = append(out, d.d)
+		}
+	}
+	return out
 }
